@@ -16,7 +16,7 @@ def run(tier, seed):
     cs = cases.get("C03")
     ms = sorted([c for c in cs if c["model"] == "mssm"], key=lambda c: (c["signs"], c["tb"], c["spec"], c["conv"]))
     ts = sorted([c for c in cs if c["model"] == "thdm"], key=lambda c: (c["ytype"], c["basis"], c["offdiag"], c["tb"]))
-    reps = 1 if tier == "quick" else 12
+    reps = 1 if tier == "quick" else 4
     if tier == "quick":
         ms = [c for i, c in enumerate(ms) if i % 2 == seed % 2]
     cfm, cft = cx.path("cases_mssm.txt"), cx.path("cases_thdm.txt")
